@@ -11,14 +11,14 @@ func init() {
 	register("C02", "Decides structural necessary conditions of 'only chains that lead, in submitted order, to a trusted root are admitted': "+
 		"(R1) ValidateChain's leaf filters block chain verification exactly as the property states: the NotAfter window start ≤ t < limit over all presence/order cases, CA-only ∧ ¬IsCA, rejectExpired ∧ expired, rejectUnexpired ∧ ¬expired (48 valuations), a hit in the forbidden-extension set / list, no hit in a non-empty required-EKU set; all filters read element 0 of the parsed chain, every raw certificate is parsed and a fatal parse error rejects; each filter is unavoidable however the others turn out: the first test of the window, of the CA-only/expiry table and of the required-EKU table lies on every path from the entry to Verify, and so does (unless there is nothing to look for) the scan for forbidden extensions, which visits every extension of the leaf, probes each one in a set holding every configured OID (or compares it with every configured OID in a nested scan), and goes on after a miss; "+
 		"(R2) x509 Verify runs on that leaf with Roots = the configured trusted pool, Intermediates = a fresh pool holding exactly the submitted certificates after the first, name chaining enabled and exactly the five documented relaxations; "+
-		"(R3) the path handed on is an element of Verify's result for which chainsEquivalent(parsed chain, it) held, otherwise an error; chainsEquivalent refuses other lengths than n or n+1 and any position where the certificates differ (Certificate.Equal = equality of Raw); "+
+		"(R3) every path handed on is an element of Verify's result for which chainsEquivalent(parsed chain, it) held — or, handed on without a call of Verify, the parsed submitted chain itself where it is a complete path on its own: exactly one certificate (the tests of the chain length on every way to that return leave no other length) that is byte for byte a certificate of the trusted pool whose CertPool Verify searches as Roots (the return lies behind the true outcome of a membership predicate over that pool and the leaf which answers false whenever none of its exact comparisons hits — a probe of a map of the pool keyed by a SHA-2 hash of the certificate's Raw, equality of Raw with an element of a list of the pool, or another such predicate — and the container compared with receives, on every writer in the module, only certificates that enter that CertPool in the same step); such a return is a marker of every leaf filter of R1 like the call of Verify (no admission around a filter); otherwise an error; chainsEquivalent refuses other lengths than n or n+1 and any position where the certificates differ (Certificate.Equal = equality of Raw); "+
 		"(R4) IsPrecertificate: (true,nil) iff poison ∧ critical ∧ value = ASN.1 NULL, poison otherwise ⇒ error, no poison ⇒ (false,nil); the OID and NULL constants; "+
 		"(R5) verifyAddChain errs when validation or the precert test errs or the leaf kind differs from the endpoint's; add-chain / add-pre-chain pass false / true; "+
 		"(R6) chain building: a candidate already in the chain, a failed CheckSignatureFrom or a failed isValid adds nothing; arguments unswapped; roots come from opts.Roots, intermediates from opts.Intermediates; every chain added extends the current chain; "+
 		"(R7) isValid: NameMismatch iff name checks on ∧ chain non-empty ∧ child.RawIssuer ≠ RawSubject; an intermediate without valid CA basic constraints never yields nil; CheckSignatureFrom: parent-not-CA and no-certSign rejections, nil only via parent.CheckSignature(alg, RawTBSCertificate, Signature); "+
 		"(R8) checkSignature returns nil only as the verdict of rsa.VerifyPSS/PKCS1v15 or behind the true edge of dsa/ecdsa/ed25519.Verify over the key, the (hashed) signed bytes and the signature; key type ≠ algorithm ⇒ error; "+
-		"(R10) 'expired' (and 'inside the NotAfter window') is judged at the time of the submission — no stale clock: the long-lived cells that ValidateChain's comparisons of instants read (found on the comparisons themselves: the configured current time, the window bounds, and transitively every field / global that feeds them) are never written with a sample of a clock that outlives the call that took it: every store to such a cell anywhere in the module (composite literals, constructors, package initialisers, assignments through a pointer held in the field) is followed back through copies, arithmetic, callees' results, parameters (to every call site) and interface calls (to the module's implementations) to time.Now / Since / Until / timers; a sample is accepted only in a struct that is a temporary of the call that read the clock (local, only read or handed to readers, returned along the call sites the sample came down, not consumed in a loop that does not read the clock again); with ValidateChain:wall-clock-by-default / configured-time-used (R1) the instant compared is then configuration or a clock read made during that call; (R5) correspondingly the options handed to ValidateChain are the log's own, or a per-call copy in which only a zero current time is replaced by a clock read of that call. "+
-		"NOT covered: the iff over all hierarchies (Verify's candidate search by AuthorityKeyId/name, EKU nesting), signature mathematics, certificate parsing, the HTTP status of a rejection (C08); for R10: clocks that enter other than through package time (file times, HTTP Date headers, database time), samples carried through channels, reflection, unsafe or struct conversions, values parked in containers of library types; whether a CONFIGURED fixed time is sensible (a deployment that configures one freezes time by choice).",
+		"(R10) 'expired' (and 'inside the NotAfter window') is judged at the time of the submission — no stale clock: the long-lived cells that ValidateChain's comparisons of instants read (found on the comparisons themselves: the configured current time, the window bounds, and transitively every field / global that feeds them) are never written with a sample of a clock that outlives the call that took it: every store to such a cell anywhere in the module (composite literals, constructors, package initialisers, assignments through a pointer held in the field) is followed back through copies, arithmetic, callees' results, parameters (to every call site) and interface calls (to the module's implementations) to time.Now / Since / Until / timers; a sample is accepted only in a struct that is a temporary of the call that read the clock (local, only read or handed to readers, returned along the call sites the sample came down, not consumed in a loop that does not read the clock again); with ValidateChain:wall-clock-by-default / configured-time-used (R1) the instant compared is then configuration or a clock read made during that call; a sample accepted in such a temporary is followed where it is read back out of it: a store of that reading into long-lived state of the filter is reported like the store of the clock read itself; (R5) correspondingly the options handed to ValidateChain are the log's own, or a per-call copy in which only a zero current time is replaced by a clock read of that call. "+
+		"NOT covered: the iff over all hierarchies (Verify's candidate search by AuthorityKeyId/name, EKU nesting), signature mathematics, certificate parsing, the HTTP status of a rejection (C08); for R3: that a path handed on without Verify is what Verify would have answered in every respect (Verify's own checks of a root leaf under the relaxed options), membership predicates that are not a map probe / list scan of a struct field (function literals, library containers), collision resistance of SHA-2, removal from x509.CertPool, writes through a slice a pool getter hands out; for R10: clocks that enter other than through package time (file times, HTTP Date headers, database time), samples carried through channels, reflection, unsafe or struct conversions, values parked in containers of library types; whether a CONFIGURED fixed time is sensible (a deployment that configures one freezes time by choice).",
 		runC02)
 }
 
@@ -118,7 +118,10 @@ func c02ValidateChain(r *Run, fn *ssa.Function) {
 	}
 	chain := r.D.D(CallArgs(ce)[0])
 	leaf := chain + "[0]"
-	vi := []ssa.Instruction{verify}
+	// what admits a chain: the call of Verify and every return that hands a path on without it (rules_t8c02.go) —
+	// none of them may be reached around a leaf filter
+	verified, direct := c02HandedOn(r, fn, ce)
+	vi := append([]ssa.Instruction{verify}, direct...)
 	r.CheckCases(fn, "ValidateChain:filters", CaseTable{
 		Atoms: []RuleAtom{{Name: "caOnly", Pat: "p1.acceptOnlyCA"}, {Name: "isCA", Pat: "*[0].IsCA"}, {Name: "rejExp", Pat: "p1.rejectExpired"}, {Name: "rejUnexp", Pat: "p1.rejectUnexpired"},
 			{Name: "now", OrdA: "*p1.currentTime*", OrdB: "*[0].NotAfter"}},
@@ -130,7 +133,7 @@ func c02ValidateChain(r *Run, fn *ssa.Function) {
 			return "pass"
 		},
 		Want:    map[string]func(*Run, *ssa.Return) (bool, string){"blocked": wantErr(true)},
-		Unreach: map[string][]ssa.Instruction{"blocked": vi}, Reach: map[string][]ssa.Instruction{"pass": vi},
+		Unreach: map[string][]ssa.Instruction{"blocked": vi}, Reach: map[string][]ssa.Instruction{"pass": vi[:1]}, // positive control: chain verification (vi[0]) goes on
 	})
 	nowAtom := RuleAtom{OrdA: "*p1.currentTime*", OrdB: "*[0].NotAfter"}
 	for _, site := range r.atomSites(fn, wKeySet(r.bindAtom(fn, nowAtom))) {
@@ -269,10 +272,17 @@ func c02ValidateChain(r *Run, fn *ssa.Function) {
 	r.Rule("C02.R3")
 	paths := "(*x509.Certificate).Verify(*)#0"
 	r.ExpectArg(ce, "ValidateChain:equivalent.candidate", 1, paths+"[*it@*]")
-	succ := successReturns(fn)
+	isDirect := map[ssa.Instruction]bool{}
+	for _, d := range direct {
+		isDirect[d] = true
+	}
 	for _, ret := range Returns(fn) {
 		got := r.D.D(ret.Results[0])
-		if errKind(ret.Results[1]) == "nil" {
+		if isDirect[ret] {
+			// a path handed on without chain verification: the submitted chain of one certificate that is,
+			// byte for byte, a certificate of the trusted pool (rules_t8c02.go)
+			c02UnverifiedPath(r, fn, ret, ce, verify)
+		} else if errKind(ret.Results[1]) == "nil" {
 			// the path handed on, as the success return can see it: a position found by a search (−1 | position of
 			// the hit) is the position of the hit wherever only the hit's edge leads to this return
 			if want := r.D.D(CallArgs(ce)[1]); got != want {
@@ -287,8 +297,8 @@ func c02ValidateChain(r *Run, fn *ssa.Function) {
 			r.Check("ValidateChain:error⇒no-path", got == "nil", r.Where(ret), "error return carries path "+clipStr(got, 80))
 		}
 	}
-	r.Check("ValidateChain:one-success-return", len(succ) == 1, r.FnPos(fn), fmt.Sprintf("%d success returns", len(succ)))
-	r.GuardAtom(fn, nil, "ValidateChain:order-check-gates-success", boolAtom("trillian/ctfe.chainsEquivalent(*)"), "F", succ, "success return")
+	c02SuccessForms(r, fn, verified, direct)
+	r.GuardAtom(fn, nil, "ValidateChain:order-check-gates-success", boolAtom("trillian/ctfe.chainsEquivalent(*)"), "F", verified, "success return with a verified path")
 	r.ErrorsGate(fn, "ValidateChain:verify-error", "(*x509.Certificate).Verify", 1)
 	r.FailEdge(fn, "ValidateChain", EdgeSpec{Name: "no-verified-path", Atom: ordAtomR("0", "len("+paths+")"), Bad: "=", Want: wantErr(true)})
 }
